@@ -463,6 +463,13 @@ class TokamakEquilibrium(Equilibrium):
             self.user_options.xpoint_refine_maxits,
         )
 
+        # find_critical uses its own bicubic spline of psi2D. Evaluate psi at the critical
+        # points with the interpolation method chosen for this equilibrium, so that
+        # psi_axis, psi_bdry and psi_sep are values of the same function that is used
+        # for the grid (they differ when psi_interpolation_method is not "spline")
+        opoints = [(r, z, float(self.psi(r, z))) for r, z, psi in opoints]
+        xpoints = [(r, z, float(self.psi(r, z))) for r, z, psi in xpoints]
+
         if len(opoints) == 0:
             warnings.warn("No O-points found in TokamakEquilibrium input")
         else:
